@@ -55,10 +55,10 @@ def chan_diff(a, b, channels=None):
 class Trio:
     """model + spec (one driver process) + real store, same configuration"""
 
-    def __init__(self, contents, depth=3, width=2, store_alg="SHA-256", ns=DEFAULT_NS, base=None):
+    def __init__(self, contents, depth=3, width=2, store_alg="SHA-256", ns=DEFAULT_NS, base=None, mp=False):
         self.contents = contents
         self.cfg = dict(depth=depth, width=width, store_alg=store_alg, ns=ns)
-        self.real = impl.Real(contents, depth, width, store_alg, ns, base=base)
+        self.real = impl.Real(contents, depth, width, store_alg, ns, base=base, mp=mp)
         self.model = lean.Model(contents, depth, width, store_alg, ns)
         self.known = abstraction.Known(oracle.DATAONE[store_alg], ns)
         self.ns = ns
@@ -143,10 +143,10 @@ class SeqOutcome:
         self.distinct = set()     # (call name, spec result class, abstract state changed?)
 
 
-def run_history(history, cfg, contents, outcome, owned, projection=None, stop_on_first=True, with_state=True):
+def run_history(history, cfg, contents, outcome, owned, projection=None, stop_on_first=True, with_state=True, mp=False):
     """Run one history. `owned(call, spec_channels)` -> set of channels the property judges on this call.
     `projection(call)` -> set of channels compared between model and real (None = all)."""
-    trio = Trio(contents, **cfg)
+    trio = Trio(contents, mp=mp, **cfg)
     outcome.histories += 1
     prev_real = trio.real.state() if with_state else None
     prev_abs = None
